@@ -161,7 +161,7 @@ def check_case(rec, case):
     nontrivial = (mn_all < len(R[0]) or len(reach) < len(R[0])) and 0 < len(R[4]) and fa.mn_count(R, sorted(reach)) > 1
     rec.note_case(case, case['cls'], nontrivial)
     for name in ('dfa_minimize', 'dfa_quotient', 'dfa_hopfcroft'):
-        o = call(adapt.build_dfa, R)
+        o = call(adapt.build_dfa, R, scramble=case.get('scr'))
         if not o.ok:
             rec.inconc('cannot build DFA')
             return
@@ -236,7 +236,7 @@ def run(rec, rng, tier):
             check_case(rec, rc)
             return
         for case in gen_cases(rec, rng, tier):
-            check_case(rec, case)
+            check_case(rec, common.with_scramble(case))
     finally:
         if _LM is not None:
             rec.extra['anchored_line_coverage'] = {k: {'lines': v['lines'], 'hit': v['hit'], 'never': v['never']} for k, v in _LM.coverage_report().items()}
